@@ -3,7 +3,7 @@ from __future__ import annotations
 
 import json
 
-from . import fam_expr, fam_iter, fam_multi, fam_pairs, fam_sql
+from . import fam_expr, fam_iter, fam_multi, fam_pairs, fam_proc, fam_sql
 from .core import Part, open_findings
 
 REGISTRY = {
@@ -23,6 +23,10 @@ REGISTRY = {
         "SQLite 3.40 in memory is the database; both settings of PRAGMA reverse_unordered_selects stand for 'both legal physical row orders'",
         "bag equality is demanded exactly when TLC's DetTree says every slice sits under a total order (or has a trivial window) on this data",
         "SQLite cannot parse the parenthesised nested compound selects SQLAlchemy renders for a chain whose operand is a bare chain: such states are compiled but not executed (counted in evidence)"]},
+    "C07": {"families": [fam_proc.run, fam_multi.run], "assumptions": [
+        "the Processor used is the harness's real one (SQLite temp tables <-> RowSequence); its hooks evaluate the source for real, so 'evaluable by the source engine on its own' is observed, not assumed"]},
+    "C10": {"families": [fam_proc.run], "assumptions": [
+        "the leaf below the materializations is a counting lazy payload (iteration-sourced trees); at most one iteration of it over a whole history is the observable form of 'evaluated at most once'"]},
     "C08": {"families": [fam_sql.run, fam_iter.run], "assumptions": ["each occurrence of a leaf table in one query gets its own alias (as a user must do for self-joins)"]},
     "C11": {"families": [fam_sql.run], "assumptions": ["list equality is demanded exactly when TLC's OrdTree says the outermost level carries a sort that totally orders its rows"]},
     "C17": {"families": [fam_sql.run], "assumptions": []},
